@@ -31,6 +31,15 @@ Proof.
   - apply mget_mset_key. exact E.
 Qed.
 
+(** writing the same value at the same address preserves cell-by-cell equality *)
+Lemma mget_mset_ext (m m' : memory) (a v : Z) :
+  (forall b, mget m b = mget m' b) -> forall b, mget (mset m a v) b = mget (mset m' a v) b.
+Proof.
+  intros H b. destruct (Pos.eq_dec (akey a) (akey b)) as [E|E].
+  - unfold mget, mset. rewrite E. rewrite !PositiveMap.gss. reflexivity.
+  - rewrite !mget_mset_key by exact E. apply H.
+Qed.
+
 Lemma byte_range (z : Z) : 0 <= byte z < 256.
 Proof. unfold byte. lia. Qed.
 
@@ -523,11 +532,12 @@ Ltac keep KA :=
   try (apply kill_if_some in Ho'; destruct Ho' as [Ho' Hk]);
   (eapply holds_frame; [reflexivity | apply KA; exact Ho' | side | side | side]).
 Ltac flags KF :=
-  let F := fresh "F" in intros F; try discriminate F; first [exact (KF F) | split; reflexivity].
+  let F := fresh "F" in intros F; try discriminate F;
+  first [ match goal with K : k_flags _ = _ -> _ |- _ => exact (K F) end | split; reflexivity ].
 Ltac bulk KA KX KY KF :=
   unfold know_sound; cbn [transfer fst i_mn i_op k_acc k_x k_y k_flags];
-  (split; [|split;[|split]]); try (keep KA); try (keep KX); try (keep KY); try discriminate;
-  try (flags KF).
+  (split; [|split;[|split;[|split;[|split]]]]); try (keep KA); try (keep KX); try (keep KY);
+  try discriminate; try (flags KF).
 Ltac fix_none PN o :=
   let EO := fresh "EO" in
   destruct (String.eqb_spec o "") as [EO|EO];
@@ -548,14 +558,14 @@ Ltac inv_wr :=
   end.
 
 Theorem transfer_sound : forall cfg k i ahead s s',
-  ports cfg = [] -> bytes_ok s -> i_mn i <> PLP ->
+  ports cfg = [] -> bytes_ok s ->
   (i_mn i = PHA \/ i_mn i = PHP -> know_off_stack cfg k s) ->
   ind_legal i -> xfer_no_zp_y cfg k i ->
   know_sound cfg k s -> steps_to cfg i s s' ->
   know_sound cfg (fst (transfer k i ahead)) s'.
 Proof.
-  intros cfg k i ahead s s' HP HB NPLP HOFF HIND HXF KS (op & c & P & E).
-  destruct KS as (KA & KX & KY & KF).
+  intros cfg k i ahead s s' HP HB HOFF HIND HXF KS (op & c & P & E).
+  destruct KS as (KA & KX & KY & KF & KFX & KFY).
   pose proof (parse_none_iff _ _ _ P) as PN.
   destruct i as [mn o cy alt nb pr]. cbn [i_mn i_op] in *.
   destruct mn.
@@ -660,7 +670,9 @@ Proof.
     + intros o' Ho'. eapply (holds_push cfg LDA s _ o' _ (rS s)); eauto; reflexivity.
     + intros o' Ho'. eapply (holds_push cfg LDX s _ o' _ (rS s)); eauto; reflexivity.
     + intros o' Ho'. eapply (holds_push cfg LDY s _ o' _ (rS s)); eauto; reflexivity.
-  - (* PLP *) exfalso. apply NPLP. reflexivity.
+  - (* PLP *) inv_exec E.
+    match goal with H : pull s = _ |- _ => unfold pull in H; inversion H; subst; clear H end.
+    bulk KA KX KY KF.
   - (* NOP *) inv_exec E; bulk KA KX KY KF.
 Qed.
 Print Assumptions transfer_sound.
@@ -681,9 +693,11 @@ Theorem redundant_load_sound : forall cfg k i s s',
   ports cfg = [] -> know_sound cfg k s -> steps_to cfg i s s' ->
   (i_mn i = LDA /\ k_acc k = Some (i_op i)) \/ (i_mn i = LDX /\ k_x k = Some (i_op i)) \/
   (i_mn i = LDY /\ k_y k = Some (i_op i)) ->
-  eq_mod_nz s' s /\ (i_mn i = LDA -> k_flags k = FA -> eq_state s' s).
+  eq_mod_nz s' s /\
+  ((i_mn i = LDA /\ k_flags k = FA) \/ (i_mn i = LDX /\ k_flags k = FX) \/
+   (i_mn i = LDY /\ k_flags k = FY) -> eq_state s' s).
 Proof.
-  intros cfg k i s s' HP (KA & KX & KY & KF) (op & c & P & E) H.
+  intros cfg k i s s' HP (KA & KX & KY & KF & KFX & KFY) (op & c & P & E) H.
   destruct i as [mn o cy alt nb pr]. cbn [i_mn i_op] in *.
   destruct H as [[-> HK]|[[-> HK]|[-> HK]]].
   - destruct (KA _ HK) as (op' & c' & P' & R'). rewrite P in P'. inversion P'; subst op'.
@@ -691,20 +705,76 @@ Proof.
     rewrite R' in R. inversion R; subst v c'.
     split.
     + unfold eq_mod_nz. cbn. repeat split; reflexivity.
-    + intros _ F. destruct (KF F) as [FZ FN]. unfold eq_state, eq_mod_nz. cbn.
+    + intros [[_ F]|[[M _]|[M _]]]; try discriminate M.
+      destruct (KF F) as [FZ FN]. unfold eq_state, eq_mod_nz. cbn.
       repeat split; try reflexivity; symmetry; assumption.
   - destruct (KX _ HK) as (op' & c' & P' & R'). rewrite P in P'. inversion P'; subst op'.
     apply exec_load_inv in E; [|right; left; reflexivity]. destruct E as (v & R & ->).
     rewrite R' in R. inversion R; subst v c'.
-    split; [|discriminate].
-    unfold eq_mod_nz. cbn. repeat split; reflexivity.
+    split.
+    + unfold eq_mod_nz. cbn. repeat split; reflexivity.
+    + intros [[M _]|[[_ F]|[M _]]]; try discriminate M.
+      destruct (KFX F) as [FZ FN]. unfold eq_state, eq_mod_nz. cbn.
+      repeat split; try reflexivity; symmetry; assumption.
   - destruct (KY _ HK) as (op' & c' & P' & R'). rewrite P in P'. inversion P'; subst op'.
     apply exec_load_inv in E; [|right; right; reflexivity]. destruct E as (v & R & ->).
     rewrite R' in R. inversion R; subst v c'.
-    split; [|discriminate].
-    unfold eq_mod_nz. cbn. repeat split; reflexivity.
+    split.
+    + unfold eq_mod_nz. cbn. repeat split; reflexivity.
+    + intros [[M _]|[[M _]|[_ F]]]; try discriminate M.
+      destruct (KFY F) as [FZ FN]. unfold eq_state, eq_mod_nz. cbn.
+      repeat split; try reflexivity; symmetry; assumption.
 Qed.
 Print Assumptions redundant_load_sound.
+
+(** the same, stated on the removal bit the model computes: a load [transfer] marks for removal
+    leaves the machine state as it was, N and Z included, unless the removal rests on a
+    look-ahead (whose soundness is [lda_lookahead_dead] / [ldxy_lookahead_dead] below) *)
+Lemma opt_eqb_true (a : option string) (o : string) : opt_eqb a o = true -> a = Some o.
+Proof.
+  unfold opt_eqb. destruct a as [v|]; [|discriminate]. intros H. apply String.eqb_eq in H.
+  rewrite H. reflexivity.
+Qed.
+
+Theorem removal_sound : forall cfg k i ahead s s',
+  ports cfg = [] -> know_sound cfg k s -> steps_to cfg i s s' ->
+  snd (transfer k i ahead) = true ->
+  eq_mod_nz s' s /\
+  (eq_state s' s \/ (i_mn i = LDA /\ lda_lookahead ahead = true) \/
+   ((i_mn i = LDX \/ i_mn i = LDY) /\ ldxy_lookahead ahead = true)).
+Proof.
+  intros cfg k i ahead s s' HP KS ST R.
+  unfold transfer in R.
+  destruct (i_mn i) eqn:M; cbn [snd] in R; try discriminate R;
+    try (destruct (String.eqb (i_op i) ""); discriminate R);
+    try (destruct (k_acc k) as [va|]; [destruct (ends_x va)|]; discriminate R);
+    try (destruct (k_acc k) as [va|]; [destruct (ends_y va)|]; discriminate R).
+  - (* LDA *)
+    destruct (opt_eqb (k_acc k) (i_op i)) eqn:EQ; [|discriminate R]. apply opt_eqb_true in EQ.
+    destruct (redundant_load_sound cfg k i s s' HP KS ST) as [NZ ST'].
+    { left. split; assumption. }
+    split; [exact NZ|].
+    destruct (k_flags k) eqn:F; cbn [flags_is_A] in R;
+      try (destruct (lda_lookahead ahead); [right; left; split; reflexivity|discriminate R]).
+    left. apply ST'. left. split; [exact M|reflexivity].
+  - (* LDX *)
+    destruct (opt_eqb (k_x k) (i_op i)) eqn:EQ; [|discriminate R]. apply opt_eqb_true in EQ.
+    destruct (redundant_load_sound cfg k i s s' HP KS ST) as [NZ ST'].
+    { right. left. split; assumption. }
+    split; [exact NZ|].
+    destruct (k_flags k) eqn:F;
+      try (destruct (ldxy_lookahead ahead); [right; right; split; [left|]; reflexivity|discriminate R]).
+    left. apply ST'. right. left. split; [exact M|reflexivity].
+  - (* LDY *)
+    destruct (opt_eqb (k_y k) (i_op i)) eqn:EQ; [|discriminate R]. apply opt_eqb_true in EQ.
+    destruct (redundant_load_sound cfg k i s s' HP KS ST) as [NZ ST'].
+    { right. right. split; assumption. }
+    split; [exact NZ|].
+    destruct (k_flags k) eqn:F;
+      try (destruct (ldxy_lookahead ahead); [right; right; split; [right|]; reflexivity|discriminate R]).
+    left. apply ST'. right. right. split; [exact M|reflexivity].
+Qed.
+Print Assumptions removal_sound.
 
 (** * Known-immediate compare *)
 
@@ -1123,6 +1193,193 @@ Proof.
 Qed.
 Print Assumptions rule_pla_pha.
 
+(** * The look-ahead: N and Z are dead when the next instruction defines both *)
+
+Lemma eq_mod_nz_sym (s1 s2 : mstate) : eq_mod_nz s1 s2 -> eq_mod_nz s2 s1.
+Proof.
+  intros (HA & HX & HY & HS & HV & HC & HM). unfold eq_mod_nz.
+  repeat split; try (symmetry; assumption). intros a. symmetry. apply HM.
+Qed.
+
+Lemma eff_addr_nz (cfg : config) (m : mnem) (s1 s2 : mstate) (op : operand) :
+  eq_mod_nz s1 s2 -> eff_addr cfg m s1 op = eff_addr cfg m s2 op.
+Proof.
+  intros (HA & HX & HY & HS & HV & HC & HM). apply eff_addr_frame; auto.
+Qed.
+
+Lemma read_operand_nz (cfg : config) (m : mnem) (s1 s2 : mstate) (op : operand) :
+  eq_mod_nz s1 s2 -> read_operand cfg m s1 op = read_operand cfg m s2 op.
+Proof.
+  intros (HA & HX & HY & HS & HV & HC & HM). apply read_operand_frame; auto.
+Qed.
+
+Ltac nz_states :=
+  unfold eq_state, eq_mod_nz;
+  cbn [rA rX rY rS fN fV fZ fC mem set_nz set_a set_x set_y set_sp set_c set_v set_mem adc sbc cmp
+       fst snd];
+  repeat split; try reflexivity; try assumption;
+  try (intros b; apply mget_mset_ext; assumption).
+
+Theorem defines_nz_dead : forall cfg m op s1 s2,
+  defines_nz m = true -> eq_mod_nz s1 s2 ->
+  outcome_eq (exec cfg m op s1) (exec cfg m op s2).
+Proof.
+  intros cfg m op s1 s2 D H.
+  pose proof (read_operand_nz cfg m s1 s2 op H) as RO.
+  pose proof (eff_addr_nz cfg m s1 s2 op H) as EA.
+  destruct s1 as [a1 x1 y1 sp1 n1 v1 z1 c1 m1], s2 as [a2 x2 y2 sp2 n2 v2 z2 c2 m2].
+  destruct H as (HA & HX & HY & HS & HV & HC & HM).
+  cbn [rA rX rY rS fN fV fZ fC mem] in HA, HX, HY, HS, HV, HC, HM. subst a2 x2 y2 sp2 v2 c2.
+  destruct m; try discriminate D; cbv beta iota zeta delta [exec].
+  all: try (rewrite RO;
+            match goal with |- context [read_operand ?c ?m ?s ?o] =>
+              destruct (read_operand c m s o) as [[v cy]|] end;
+            cbn [outcome_eq]; [|reflexivity]; split; [reflexivity|split; [reflexivity|]];
+            nz_states).
+  all: try (cbn [outcome_eq]; split; [reflexivity|split; [reflexivity|]]; nz_states; fail).
+  all: try (unfold pull; cbn [rS mem set_sp]; rewrite HM;
+            cbn [outcome_eq]; split; [reflexivity|split; [reflexivity|]]; nz_states; fail).
+  all: destruct op as [|iv|y k ix|y k|l]; try (cbn [outcome_eq]; reflexivity).
+  all: try (cbv beta iota zeta delta [lsr_v asl_v rol_v ror_v];
+            cbn [outcome_eq]; split; [reflexivity|split; [reflexivity|]]; nz_states; fail).
+  all: try (rewrite EA;
+            match goal with |- context [eff_addr ?c ?m ?s ?o] =>
+              destruct (eff_addr c m s o) as [[[ea md] cr]|] end; [|cbn [outcome_eq]; reflexivity];
+            destruct (read_addr (ports cfg) ea) as [ar|]; [|cbn [outcome_eq]; reflexivity];
+            destruct (write_addr (ports cfg) ea) as [aw|]; [|cbn [outcome_eq]; reflexivity];
+            cbn [mem fC]; rewrite HM;
+            cbv beta iota zeta delta [lsr_v asl_v rol_v ror_v];
+            cbn [outcome_eq]; split; [reflexivity|split; [reflexivity|]]; nz_states; fail).
+Qed.
+Print Assumptions defines_nz_dead.
+
+Definition is_store (m : mnem) : Prop := m = STA \/ m = STX \/ m = STY.
+
+(** a store does not read N or Z, and always falls through *)
+Theorem store_keeps_eq_mod_nz : forall cfg m op s1 s2,
+  is_store m -> eq_mod_nz s1 s2 ->
+  outcome_eq_mod_nz (exec cfg m op s1) (exec cfg m op s2).
+Proof.
+  intros cfg m op s1 s2 Hm H.
+  pose proof (eff_addr_nz cfg m s1 s2 op H) as EA.
+  destruct s1 as [a1 x1 y1 sp1 n1 v1 z1 c1 m1], s2 as [a2 x2 y2 sp2 n2 v2 z2 c2 m2].
+  destruct H as (HA & HX & HY & HS & HV & HC & HM).
+  cbn [rA rX rY rS fN fV fZ fC mem] in HA, HX, HY, HS, HV, HC, HM. subst a2 x2 y2 sp2 v2 c2.
+  destruct Hm as [-> | [-> | ->]]; cbv beta iota zeta delta [exec write_operand]; rewrite EA;
+    match goal with |- context [eff_addr ?c ?m ?s ?o] =>
+      destruct (eff_addr c m s o) as [[[ea md] cr]|] end;
+    try (cbn [outcome_eq_mod_nz]; reflexivity);
+    (destruct (write_addr (ports cfg) ea) as [aw|]; [|cbn [outcome_eq_mod_nz]; reflexivity]);
+    cbn [outcome_eq_mod_nz]; (split; [reflexivity|split; [reflexivity|]]); nz_states.
+Qed.
+Print Assumptions store_keeps_eq_mod_nz.
+
+Lemma store_falls_through (cfg : config) (m : mnem) (op : operand) (s s' : mstate) (c : N) (f : flow) :
+  is_store m -> exec cfg m op s = XOk s' c f -> f = FNext.
+Proof.
+  intros [-> | [-> | ->]] E; cbv beta iota zeta delta [exec] in E;
+    match type of E with match ?x with _ => _ end = _ => destruct x as [[s0 c0]|] end;
+    try discriminate; inversion E; reflexivity.
+Qed.
+
+(** a store followed by an instruction that defines N and Z: the pair behaves the same from two
+    states that differ in N and Z only *)
+Theorem store_then_defines_nz_dead : forall cfg m1 op1 m2 op2 s1 s2,
+  is_store m1 -> defines_nz m2 = true -> eq_mod_nz s1 s2 ->
+  outcome_eq (then_exec cfg (exec cfg m1 op1 s1) m2 op2) (then_exec cfg (exec cfg m1 op1 s2) m2 op2).
+Proof.
+  intros cfg m1 op1 m2 op2 s1 s2 Hm D H.
+  pose proof (store_keeps_eq_mod_nz cfg m1 op1 s1 s2 Hm H) as K.
+  destruct (exec cfg m1 op1 s1) as [t1 c1 f1|w1] eqn:E1;
+    destruct (exec cfg m1 op1 s2) as [t2 c2 f2|w2] eqn:E2; cbn [outcome_eq_mod_nz] in K;
+    try contradiction.
+  - destruct K as (-> & -> & NZ).
+    apply store_falls_through in E2; [|exact Hm]. subst f2.
+    unfold then_exec.
+    pose proof (defines_nz_dead cfg m2 op2 t1 t2 D NZ) as K2.
+    destruct (exec cfg m2 op2 t1) as [u1 d1 g1|x1]; destruct (exec cfg m2 op2 t2) as [u2 d2 g2|x2];
+      cbn [outcome_eq] in K2 |- *; try contradiction.
+    + destruct K2 as (-> & -> & ES). auto.
+    + exact K2.
+  - subst w2. cbn [then_exec outcome_eq]. reflexivity.
+Qed.
+Print Assumptions store_then_defines_nz_dead.
+
+Lemma is_load_defines_nz (m : mnem) : is_load m = true -> defines_nz m = true.
+Proof. destruct m; try discriminate; reflexivity. Qed.
+
+(** the LDX/LDY look-ahead: the next instruction executed behaves the same whatever N and Z are *)
+Theorem ldxy_lookahead_dead : forall cfg ahead s1 s2,
+  ldxy_lookahead ahead = true -> eq_mod_nz s1 s2 ->
+  exists j, next_ins ahead = Some j /\ defines_nz (i_mn j) = true /\
+            forall op, outcome_eq (exec cfg (i_mn j) op s1) (exec cfg (i_mn j) op s2).
+Proof.
+  intros cfg ahead s1 s2 L H.
+  induction ahead as [|x t IH]; [discriminate L|].
+  destruct x as [l|j|tx sz|cm|]; cbn [ldxy_lookahead next_ins] in L |- *; try discriminate L.
+  - exists j. split; [reflexivity|]. split; [exact L|]. intros op. apply defines_nz_dead; assumption.
+  - apply IH. exact L.
+  - apply IH. exact L.
+Qed.
+Print Assumptions ldxy_lookahead_dead.
+
+(** the LDA look-ahead: either the next instruction is a CMP, or it is a STA followed by a load *)
+Theorem lda_lookahead_dead : forall cfg ahead s1 s2,
+  lda_lookahead ahead = true -> eq_mod_nz s1 s2 ->
+  exists j1 t, ahead = Ins j1 :: t /\
+    ((i_mn j1 = CMP /\
+      forall op, outcome_eq (exec cfg (i_mn j1) op s1) (exec cfg (i_mn j1) op s2)) \/
+     (i_mn j1 = STA /\ exists j2, next_ins t = Some j2 /\ is_load (i_mn j2) = true /\
+      forall op1 op2,
+        outcome_eq (then_exec cfg (exec cfg (i_mn j1) op1 s1) (i_mn j2) op2)
+                   (then_exec cfg (exec cfg (i_mn j1) op1 s2) (i_mn j2) op2))).
+Proof.
+  intros cfg ahead s1 s2 L H.
+  unfold lda_lookahead in L.
+  destruct ahead as [|[l|j1|tx sz|cm|] t]; try discriminate L.
+  exists j1, t. split; [reflexivity|].
+  destruct (i_mn j1) eqn:M; try discriminate L.
+  - (* STA *) right. split; [reflexivity|].
+    assert (HH : exists j2, next_ins t = Some j2 /\ is_load (i_mn j2) = true).
+    { destruct t as [|[l|j2|tx sz|cm|] t']; try discriminate L.
+      - exists j2. split; [reflexivity|exact L].
+      - destruct t' as [|[l|j3|tx sz|cm|] t'']; try discriminate L.
+        exists j3. split; [reflexivity|exact L]. }
+    destruct HH as (j2 & N2 & L2). exists j2. split; [exact N2|]. split; [exact L2|].
+    intros op1 op2. apply store_then_defines_nz_dead.
+    + left. reflexivity.
+    + apply is_load_defines_nz. exact L2.
+    + exact H.
+  - (* CMP *) left. split; [reflexivity|]. intros op. apply defines_nz_dead; [reflexivity|exact H].
+Qed.
+Print Assumptions lda_lookahead_dead.
+
+(** [removal_sound] and the two look-ahead theorems put together: a load the model removes either
+    leaves the state as it was, or changes N and Z only and what is executed next cannot tell *)
+Theorem removal_dead : forall cfg k i ahead s s',
+  ports cfg = [] -> know_sound cfg k s -> steps_to cfg i s s' ->
+  snd (transfer k i ahead) = true ->
+  eq_mod_nz s' s /\
+  (eq_state s' s \/
+   (exists j, next_ins ahead = Some j /\ defines_nz (i_mn j) = true /\
+      forall op, outcome_eq (exec cfg (i_mn j) op s') (exec cfg (i_mn j) op s)) \/
+   (exists j1 j2 t, ahead = Ins j1 :: t /\ i_mn j1 = STA /\ next_ins t = Some j2 /\
+      is_load (i_mn j2) = true /\
+      forall op1 op2,
+        outcome_eq (then_exec cfg (exec cfg (i_mn j1) op1 s') (i_mn j2) op2)
+                   (then_exec cfg (exec cfg (i_mn j1) op1 s) (i_mn j2) op2))).
+Proof.
+  intros cfg k i ahead s s' HP KS ST R.
+  destruct (removal_sound cfg k i ahead s s' HP KS ST R) as [NZ [ES|[[_ L]|[_ L]]]].
+  - split; [exact NZ|]. left. exact ES.
+  - split; [exact NZ|].
+    destruct (lda_lookahead_dead cfg ahead s' s L NZ) as (j1 & t & EA & [[M D]|[M (j2 & N2 & L2 & D)]]).
+    + right. left. exists j1. split; [rewrite EA; reflexivity|]. split; [rewrite M; reflexivity|exact D].
+    + right. right. exists j1, j2, t. auto.
+  - split; [exact NZ|]. right. left. exact (ldxy_lookahead_dead cfg ahead s' s L NZ).
+Qed.
+Print Assumptions removal_dead.
+
 (** * Refutations of the statements as first given (concrete machine states) *)
 
 Ltac cx_bytes :=
@@ -1133,6 +1390,9 @@ Ltac cx_holds :=
   let o := fresh "o" in let Ho := fresh "Ho" in
   intros o Ho; inversion Ho; subst o;
   eexists; eexists; split; [vm_compute; reflexivity|vm_compute; reflexivity].
+
+(** the remaining clauses of [know_sound] when nothing more is known *)
+Ltac cx_rest := repeat (split; [discriminate|]); discriminate.
 
 Ltac cx_steps :=
   eexists; eexists; split; [vm_compute; reflexivity|vm_compute; reflexivity].
@@ -1156,7 +1416,7 @@ Print Assumptions rule_pla_pha_changes_a.
     A holds what "LDA v,Y" (abs,Y: does not wrap) would load.  v = $80, Y = $90. *)
 Example transfer_sound_refuted_txa :
   exists cfg k i ahead s s',
-    ports cfg = [] /\ bytes_ok s /\ i_mn i <> PLP /\
+    ports cfg = [] /\ bytes_ok s /\
     (i_mn i = PHA \/ i_mn i = PHP -> know_off_stack cfg k s) /\ ind_legal i /\
     know_sound cfg k s /\ steps_to cfg i s s' /\
     ~ know_sound cfg (fst (transfer k i ahead)) s'.
@@ -1164,12 +1424,12 @@ Proof.
   exists (cx_cfg "v" 128), (mkK None (Some "v,Y"%string) None FUnknown), (cx_ins TXA ""), [],
          (cx_state 0 1 144 255 (mset (mset mem_empty 16 1) 272 2)).
   eexists.
-  split; [reflexivity|]. split; [cx_bytes|]. split; [discriminate|].
+  split; [reflexivity|]. split; [cx_bytes|].
   split; [intros [H|H]; discriminate H|].
   split; [intros y k H; vm_compute in H; discriminate H|].
   split.
   { unfold know_sound. cbn [k_acc k_x k_y k_flags].
-    split; [discriminate|]. split; [cx_holds|]. split; discriminate. }
+    split; [discriminate|]. split; [cx_holds|]. cx_rest. }
   split; [cx_steps|].
   intros (KA & _). specialize (KA "v,Y"%string eq_refl). destruct KA as (op & c & P & R).
   vm_compute in P. inversion P; subst op. vm_compute in R. discriminate R.
@@ -1179,7 +1439,7 @@ Print Assumptions transfer_sound_refuted_txa.
 (** the same with "LDA v,Y" then TAX *)
 Example transfer_sound_refuted_tax :
   exists cfg k i ahead s s',
-    ports cfg = [] /\ bytes_ok s /\ i_mn i <> PLP /\
+    ports cfg = [] /\ bytes_ok s /\
     (i_mn i = PHA \/ i_mn i = PHP -> know_off_stack cfg k s) /\ ind_legal i /\
     know_sound cfg k s /\ steps_to cfg i s s' /\
     ~ know_sound cfg (fst (transfer k i ahead)) s'.
@@ -1187,12 +1447,12 @@ Proof.
   exists (cx_cfg "v" 128), (mkK (Some "v,Y"%string) None None FUnknown), (cx_ins TAX ""), [],
          (cx_state 2 0 144 255 (mset (mset mem_empty 16 1) 272 2)).
   eexists.
-  split; [reflexivity|]. split; [cx_bytes|]. split; [discriminate|].
+  split; [reflexivity|]. split; [cx_bytes|].
   split; [intros [H|H]; discriminate H|].
   split; [intros y k H; vm_compute in H; discriminate H|].
   split.
   { unfold know_sound. cbn [k_acc k_x k_y k_flags].
-    split; [cx_holds|]. split; [discriminate|]. split; discriminate. }
+    split; [cx_holds|]. split; [discriminate|]. cx_rest. }
   split; [cx_steps|].
   intros (_ & KX & _). specialize (KX "v,Y"%string eq_refl). destruct KX as (op & c & P & R).
   vm_compute in P. inversion P; subst op. vm_compute in R. discriminate R.
@@ -1203,7 +1463,7 @@ Print Assumptions transfer_sound_refuted_tax.
     Y is not what "LDY (p),Y" would load next *)
 Example transfer_sound_refuted_ldy_ind :
   exists cfg k i ahead s s',
-    ports cfg = [] /\ bytes_ok s /\ i_mn i <> PLP /\
+    ports cfg = [] /\ bytes_ok s /\
     (i_mn i = PHA \/ i_mn i = PHP -> know_off_stack cfg k s) /\ xfer_no_zp_y cfg k i /\
     know_sound cfg k s /\ steps_to cfg i s s' /\
     ~ know_sound cfg (fst (transfer k i ahead)) s'.
@@ -1211,7 +1471,7 @@ Proof.
   exists (cx_cfg "p" 16), (mkK None None None FUnknown), (cx_ins LDY "(p),Y"), [],
          (cx_state 0 0 1 255 (mset (mset (mset (mset mem_empty 16 0) 17 2) 513 5) 517 9)).
   eexists.
-  split; [reflexivity|]. split; [cx_bytes|]. split; [discriminate|].
+  split; [reflexivity|]. split; [cx_bytes|].
   split; [intros [H|H]; discriminate H|].
   split; [split; discriminate|].
   split.
@@ -1225,19 +1485,19 @@ Print Assumptions transfer_sound_refuted_ldy_ind.
 (** T1 without the stack-page hypothesis: PHA overwrites the cell X is known to mirror *)
 Example transfer_sound_refuted_pha :
   exists cfg k i ahead s s',
-    ports cfg = [] /\ bytes_ok s /\ i_mn i <> PLP /\ ind_legal i /\ xfer_no_zp_y cfg k i /\
+    ports cfg = [] /\ bytes_ok s /\ ind_legal i /\ xfer_no_zp_y cfg k i /\
     know_sound cfg k s /\ steps_to cfg i s s' /\
     ~ know_sound cfg (fst (transfer k i ahead)) s'.
 Proof.
   exists (cx_cfg "stk" 511), (mkK None (Some "stk"%string) None FUnknown), (cx_ins PHA ""), [],
          (cx_state 9 3 0 255 (mset mem_empty 511 3)).
   eexists.
-  split; [reflexivity|]. split; [cx_bytes|]. split; [discriminate|].
+  split; [reflexivity|]. split; [cx_bytes|].
   split; [intros y k H; vm_compute in H; discriminate H|].
   split; [split; discriminate|].
   split.
   { unfold know_sound. cbn [k_acc k_x k_y k_flags].
-    split; [discriminate|]. split; [cx_holds|]. split; discriminate. }
+    split; [discriminate|]. split; [cx_holds|]. cx_rest. }
   split; [cx_steps|].
   intros (_ & KX & _). specialize (KX "stk"%string eq_refl). destruct KX as (op & c & P & R).
   vm_compute in P. inversion P; subst op. vm_compute in R. discriminate R.
@@ -1290,3 +1550,47 @@ Proof.
   destruct EQ as ((_ & _ & HY & _) & _). vm_compute in HY. discriminate HY.
 Qed.
 Print Assumptions rule_load_load_refuted.
+
+(** The rule as it was before the fix (a repeated LDX is removed whatever N and Z describe) is
+    unsound: X is known to hold "#5", N and Z describe A = 0 (knowledge [FA], e.g. after
+    "LDX #5; LDA #0"); "LDX #5" clears Z, so removing it changes what a following BEQ does *)
+Definition cx_ldx_state : mstate := mkS 0 5 0 255 false false true false mem_empty.
+
+Lemma cx_ldx_know_sound :
+  know_sound (cx_cfg "v" 128) (mkK None (Some "#5"%string) None FA) cx_ldx_state.
+Proof.
+  unfold know_sound. cbn [k_acc k_x k_y k_flags].
+  split; [discriminate|]. split; [cx_holds|]. split; [discriminate|].
+  split; [intros _; split; reflexivity|]. split; discriminate.
+Qed.
+
+Example ldx_removal_needs_flags :
+  exists cfg k i s s',
+    know_sound cfg k s /\ steps_to cfg i s s' /\ i_mn i = LDX /\ k_x k = Some (i_op i) /\
+    ~ eq_state s' s.
+Proof.
+  exists (cx_cfg "v" 128), (mkK None (Some "#5"%string) None FA), (cx_ins LDX "#5"), cx_ldx_state.
+  eexists.
+  split; [exact cx_ldx_know_sound|]. split; [cx_steps|]. split; [reflexivity|]. split; [reflexivity|].
+  intros (_ & _ & HZ). vm_compute in HZ. discriminate HZ.
+Qed.
+Print Assumptions ldx_removal_needs_flags.
+
+(** the same situation, spelt out: the BEQ that follows is taken without the LDX and not taken
+    with it; the model (after the fix) keeps the LDX *)
+Example ldx_removal_changes_beq :
+  exists cfg k i s s',
+    know_sound cfg k s /\ k_flags k = FA /\ steps_to cfg i s s' /\ i_mn i = LDX /\
+    k_x k = Some (i_op i) /\
+    exec cfg BEQ (OLbl "l") s = XOk s 3%N (FGoto "l") /\
+    exec cfg BEQ (OLbl "l") s' = XOk s' 2%N FNext /\
+    snd (transfer k i [Ins (cx_ins BEQ "l")]) = false.
+Proof.
+  exists (cx_cfg "v" 128), (mkK None (Some "#5"%string) None FA), (cx_ins LDX "#5"), cx_ldx_state.
+  eexists.
+  split; [exact cx_ldx_know_sound|]. split; [reflexivity|]. split; [cx_steps|].
+  split; [reflexivity|]. split; [reflexivity|].
+  split; [vm_compute; reflexivity|]. split; [vm_compute; reflexivity|].
+  vm_compute. reflexivity.
+Qed.
+Print Assumptions ldx_removal_changes_beq.
